@@ -125,6 +125,8 @@ TRUSTED = [
     "correspondence harness harness/props/c16.py (exact on order keys of doubles; 1e-9 relative for apply_uf; 1e-12 for PSD numerics and calc_stat_ext)",
     "numpy vectorisation over rows: the model is per row, every row of the implementation's tables is compared",
     "numpy kernels nanargmax/nanargmin/fmax/abs/max/argmax/mean/std and fancy indexing behave as modelled (re-measured by the streams)",
+    "list.index / list.insert / slicing (merge_lists) and numpy's `new[pv] = old`, `arr[:, j] = col`, boolean .nonzero() "
+    "behave as Model/ExtremaLabels.lean has them (re-measured by the mergelists / labform streams)",
     "pyyeti.srs.srs / srs_frf produce the per-case spectra; only their storage and envelope are in scope; srs.vrs is C03's "
     "model Srs.vrsOne (imported read-only), compared at 1e-9 with the oscillator frequencies inside the analysis grid",
     "Python object identity is modelled by Model/ExtremaHeap.lean (arrays / lists = cells of a store); that numpy's .copy(), "
@@ -2076,8 +2078,9 @@ def _lab_acc_reply(e):
     return " ".join(e.drminfo.labels) + " | " + ("0" if e.ext_x is None else "1") + " | " + " | ".join(rows)
 
 
-def _lab_step_kinds(parts):
-    """what `_check_row_compatibility` sees at every step: the overlap pattern of (labels so far, next labels)"""
+def _lab_step_kinds(parts, as_coded=True):
+    """what `_check_row_compatibility` sees at every step: the overlap pattern of (labels so far, next labels);
+    `as_coded`: stop where the code raises KeyError for an event without per-case columns (the oracle does not)"""
     kinds = []
     acc = None
     for _, _, _, c in parts:
@@ -2102,7 +2105,7 @@ def _lab_step_kinds(parts):
             kinds.append("superset-same-order" if [x for x in l2 if x in a] == acc else "superset")
         else:
             kinds.append("overlap")
-        if not hasattr(c, "mx"):
+        if as_coded and not hasattr(c, "mx"):
             kinds.append("keyerror-no-mx")
             break
         acc = _ref_merge(acc, l2)
@@ -3763,7 +3766,7 @@ def oracle_labform(spec):
             cur = m["extreme"] if "extreme" in m else m
             cats += [c for c in cur if c not in cats]
         for drm in cats:
-            kinds = _lab_step_kinds(_lab_parts(dct, cases, drm))
+            kinds = _lab_step_kinds(_lab_parts(dct, cases, drm), as_coded=False)
             if "repeated-refused" in kinds:
                 must_raise = True
         if "extreme" not in dct:
